@@ -92,7 +92,7 @@ func runC01(p *Prog, r *Result) {
 	checkNoSpaceInsideWord(p, r, "R01g")
 	r.Rule("R01h", "every command type whose printing can begin with \"(\" has a case in startsWithLparen, which is what keeps \"( (\" from being printed as \"((\"", 3)
 	checkLparenStartersListed(p, r, "R01h")
-	r.Rule("R01i", "the separator flag that Printer.command sets to keep a `;` away from a construct's closing word is cleared before the command ends: what follows on the same line gets its separator", 3)
+	r.Rule("R01i", "the separator flag that Printer.command sets to keep a `;` away from a construct's closing word is cleared before the command ends: what follows on the same line gets its separator", 12)
 	checkSeparatorFlagCleared(p, r, "R01i")
 	r.Rule("R01j", "whatever root Print is given, every path from the call that writes it to Print's return passes flushHeredocs: a queued body is not left unwritten", 4)
 	checkPrintFlushesHeredocs(p, r, "R01j")
@@ -481,11 +481,13 @@ func inDefaultOfRootSwitch(g *FGraph, b *FBlock) bool {
 }
 
 var c01Controls = []Control{
+	{Name: "closing-parenthesis-keeps-the-inner-separator", Rule: "R01i", WantKey: "wordPart#nested statement list 1", File: "syntax/printer.go",
+		Mutate: ctlReplaceAnywhere("\t// Any separator written within the parentheses, like the & in \"(foo &)\",\n\t// does not stand in for the one before what follows them.\n\tp.wroteSemi = false\n", "")},
 	{Name: "here-documents-flushed-for-files-and-statements-only", Rule: "R01j", WantKey: "Print#after command", File: "syntax/printer.go",
 		Mutate: ctlChain(ctlReplaceAnywhere("\tcase *Stmt:\n\t\tp.stmtList([]*Stmt{node}, nil)\n", "\tcase *Stmt:\n\t\tp.stmtList([]*Stmt{node}, nil)\n\t\tp.flushHeredocs()\n"),
 			ctlReplaceAnywhere("\tp.flushHeredocs()\n\tp.flushComments()\n\n\t// flush the writers", "\tp.flushComments()\n\n\t// flush the writers"))},
 	{Name: "separator-flag-left-set-after-esac", Rule: "R01i", WantKey: "command#store", File: "syntax/printer.go",
-		Mutate: ctlReplaceAnywhere("\t\t// The ;; of the last item only stands in for the ; before esac,\n\t\t// not for the one before a statement which follows on the same line.\n\t\tp.wroteSemi = false\n", "")},
+		Mutate: ctlReplaceAnywhere("\t// The separator before the reserved word, such as the & in \"{ foo & }\"\n\t// or the ;; in \"a) foo ;; esac\", is not the one before what follows it.\n\tp.wroteSemi = false\n", "")},
 	{Name: "anonymous-function-not-a-paren-starter", Rule: "R01h", WantKey: "startsWithLparen#FuncDecl", File: "syntax/printer.go",
 		Mutate: ctlReplaceAnywhere("\tcase *FuncDecl:\n\t\t// keep ( () for a zsh anonymous function like \"() { foo; }\"\n\t\treturn !node.RsrvWord && node.Name == nil && len(node.Names) == 0\n", "")},
 	{Name: "space-inside-a-word", Rule: "R01g", WantKey: "wordParts#a ProcSubst that is not the first part", File: "syntax/printer.go",
